@@ -36,6 +36,9 @@ type c12Case struct {
 	Rep   int      `json:"rep,omitempty"`
 	Seed  int64    `json:"seed,omitempty"` // stress
 	G     int      `json:"g,omitempty"`    // stress: goroutines
+	// hist: after a backend close, polls are only issued once the agent has
+	// noticed the close (its connection is torn down), not right behind it
+	Settle bool `json:"settle,omitempty"`
 }
 
 type c12Spec struct {
@@ -150,6 +153,7 @@ type c12Sess struct {
 	state     int
 	sent      []shimMsg // sent by the backend
 	delivered int
+	settle    bool // polls after the backend's close wait until the agent has noticed it
 	tainted   bool // a client data/close call came between the backend's sends and the polls
 }
 
@@ -296,6 +300,9 @@ func (x *c12Exec) drain(s *c12Sess, first *shimAnswer) {
 	a := first
 	for n := 0; n < len(s.sent)+4; n++ {
 		if a == nil {
+			if s.settle {
+				s.bc.settled(len(s.sent) - s.delivered)
+			}
 			r := x.call("poll", fmt.Sprintf("poll(session %s after backend close)", s.id), "", nil, shimIDBody(s.id))
 			a = &r
 		}
@@ -524,7 +531,14 @@ func (x *c12Exec) history() {
 			}
 			s.bc.closeNow()
 			s.state = c12BClosed
-			x.step(c12Step{Op: op, Target: s.id})
+			note := ""
+			if x.c.Settle {
+				s.settle = true
+				if s.bc.settled(len(s.sent) - s.delivered) {
+					note = "agent side torn down before the next call"
+				}
+			}
+			x.step(c12Step{Op: op, Target: s.id, Note: note})
 		default:
 			skip("unknown op")
 		}
@@ -551,6 +565,7 @@ type c12Sched struct {
 	First      string // A | B | X (X = the backend acts)
 	After      string // event the second actor waits for ("" = none)
 	DelayUs    int
+	Settle     bool // X waits until the agent has torn its side down before anything else happens
 	Spin       bool // B is repeated back to back until it is no longer answered 400 (or A is done)
 	Pending    int  // messages the backend sends before the pair starts
 	K          int  // messages the backend sends immediately before closing (X)
@@ -607,6 +622,9 @@ var c12Scheds = []c12Sched{
 	{Pair: "poll-bclose", Name: "backend-closes-while-poll-blocked-in-read", First: "A", After: "A@shim.poll.loaded", DelayUs: 3000},
 	{Pair: "poll-bclose", Name: "backend-sends-3-and-closes-while-poll-blocked-in-read", First: "A", After: "A@shim.poll.loaded", DelayUs: 3000, K: 3},
 	{Pair: "poll-bclose", Name: "backend-sends-12-and-closes-then-poll", First: "X", After: "bclosed", K: 12},
+	{Pair: "poll-bclose", Name: "backend-sends-3-and-closes-agent-notices-then-poll", First: "X", After: "bclosed", K: 3, Settle: true},
+	{Pair: "poll-bclose", Name: "backend-sends-10-and-closes-agent-notices-then-poll", First: "X", After: "bclosed", K: 10, Settle: true},
+	{Pair: "poll-bclose", Name: "backend-sends-25-and-closes-polls-wait-for-agent-to-notice", First: "X", After: "bclosed", K: 25, Settle: true},
 	// A = open (backend greets with 2 messages), B = poll naming the id the open will be given
 	{Pair: "open-poll", Name: "poll-completes-then-open", First: "B", After: "B.done"},
 	{Pair: "open-poll", Name: "polls-back-to-back-first-hit-held-at-loaded-until-open-returns", First: "A", Spin: true,
@@ -704,7 +722,12 @@ func (x *c12Exec) forcedOnce(sc *c12Sched) {
 		}
 		s.bc.closeNow()
 		s.state = c12BClosed
-		time.Sleep(3 * time.Millisecond) // let the agent's reader goroutine see the close
+		if sc.Settle {
+			s.settle = true
+			s.bc.settled(len(s.sent) - s.delivered) // the agent has noticed the close and torn its side down
+		} else {
+			time.Sleep(3 * time.Millisecond) // let the agent's reader goroutine see the close
+		}
 		sched.signal("bclosed")
 	}
 	var pa, pb *shimPending
